@@ -122,6 +122,7 @@ class Frame:
         self.prefix = f"{depth}:"
         self.name = name or getattr(func, "name", "<lambda>")
         self.selfname = None
+        self.caller = None
         if is_method and isinstance(func, FUNC_TYPES) and func.args.args and receiver is not None:
             self.selfname = func.args.args[0].arg
 
@@ -881,6 +882,7 @@ class Interp:
         self.functions.add(func)
         fr = Frame(func, depth, receiver if receiver is not None else (caller.receiver if caller else None), name,
                    is_method=is_method and getattr(func, "_class", None) is not None)
+        fr.caller = caller
         # The callee sees only the global part of the state (event monitors, self.*);
         # the callers' frame locals pass through unchanged.  Summaries keyed by
         # (function, globals, arguments) close recursion.
